@@ -285,10 +285,39 @@ class Ev:
         if ta[0] == "fall" and tb[0] == "fall":
             return self.block(rest, self.merge(c, ta[1], tb[1])) if rest else \
                 ("fall", self.merge(c, ta[1], tb[1]))
-        # at least one branch leaves: continue the rest on every falling leaf, under its condition
+        node = ("node", c, ta, tb)
+        if not self.has_leaf(node, ("ret", "cont")):
+            # the other leaves only raise: the falling paths are merged (x = if c then .. else ..)
+            # and the rest runs ONCE, under the literals common to all falling paths
+            env2 = self.tree_env(node)
+            if env2 is None:
+                return ("raise",)
+            paths = self.fall_paths(node, [])
+            common = [l for l in paths[0] if all(l in q for q in paths[1:])]
+            if not rest:
+                return ("fall", env2)
+            n0 = len(self.path)
+            self.path += common
+            out = self.block(rest, env2)
+            del self.path[n0:]
+            return out
+        # a branch returns: continue the rest on every falling leaf, under its condition
         ta = self.cont(ta, rest, literals(c, True))
         tb = self.cont(tb, rest, literals(c, False))
         return ("node", c, ta, tb)
+
+    def has_leaf(self, tree, kinds):
+        if tree[0] == "node":
+            return self.has_leaf(tree[2], kinds) or self.has_leaf(tree[3], kinds)
+        return tree[0] in kinds
+
+    def fall_paths(self, tree, lits):
+        if tree[0] == "fall":
+            return [lits]
+        if tree[0] == "node":
+            return self.fall_paths(tree[2], lits + literals(tree[1], True)) + \
+                self.fall_paths(tree[3], lits + literals(tree[1], False))
+        return []
 
     def cont(self, tree, rest, lits):
         if tree[0] == "fall":
